@@ -38,6 +38,9 @@ import (
 	"sync/atomic"
 	"time"
 
+	"github.com/sourcenetwork/immutable"
+	"github.com/sourcenetwork/lens/host-go/config/model"
+
 	"github.com/sourcenetwork/defradb/client"
 	"github.com/sourcenetwork/defradb/verifharness/core"
 	"github.com/sourcenetwork/defradb/verifharness/sim"
@@ -498,6 +501,9 @@ type ttRun struct {
 	hasDel   bool
 	twinIDs  map[string]string // "<node>/<twin document index>" -> docID (Twin documents are local to their writer)
 	twins    []*ttTwinCommit
+	// modeSuffix marks the reads repeated after the collection got a new schema version
+	// (seeded C03-d: the commits written under the earlier version were taken for foreign ones)
+	modeSuffix string
 }
 
 // ttTwinCommit: a commit of a document of collection Twin.
@@ -653,6 +659,26 @@ func runTimeTravel(ctx context.Context, c core.Case, r *core.Rec) {
 	t.drainSub()
 	t.readAll()
 	t.readCross()
+	// Half of the histories: every node patches the schema of Doc (a new, active collection version)
+	// and every commit is read again. The commits were all written under the earlier version; the
+	// state of a commit does not depend on which version of its collection is the current one.
+	if len(p.Script)%2 == 1 && !t.readHung && !t.hung {
+		patched := true
+		for ni, n := range t.nodes {
+			patch := `[{"op":"add","path":"/Doc/Fields/-","value":{"Name":"zzLate","Kind":"String"}}]`
+			if err := n.DB.PatchSchema(ctx, patch, immutable.None[model.Lens](), true); err != nil {
+				t.logf("n%d: schema patch failed: %v", ni, err)
+				r.Note("schema-patch-failed")
+				patched = false
+				break
+			}
+		}
+		if patched {
+			t.modeSuffix = "/after-schema-patch"
+			t.readAll()
+			r.Count("histories_reread_after_schema_patch", 1)
+		}
+	}
 
 	// coverage
 	r.Count("histories", 1)
@@ -1067,6 +1093,7 @@ func (t *ttRun) readAll() {
 	if t.p.Nodes > 1 {
 		mode = "branching"
 	}
+	mode += t.modeSuffix
 	for ni, n := range t.nodes {
 		for d, docID := range t.docIDs {
 			rows, err := n.Rows(t.ctx, fmt.Sprintf(`query { commits(docID: "%s", fieldName: "_C") { cid height } }`, docID), "commits")
@@ -1128,6 +1155,9 @@ func (t *ttRun) readAt(mode string, ni int, n *core.Node, docID string, ci *ttCo
 	}
 	t.r.Count("evaluations", 1)
 	t.r.Count("versioned_reads", 1)
+	if t.modeSuffix != "" {
+		t.r.Count("versioned_reads_after_schema_patch", 1)
+	}
 	if len(ci.Parents) >= 2 {
 		t.r.Count("merge_commit_reads", 1)
 	}
@@ -1524,9 +1554,9 @@ func init() {
 			"Every composite commit listed by commits(docID, fieldName:_C) on every node is read with Col(cid,docID), also with matching / non-matching equality filters on s and i (indexed in the indexed configuration), also in the middle of the history. " +
 			"In a third of the histories (and two anchors) documents of a second collection Twin, which shares the field names name/s/i/n with Doc, are written in between: every Twin commit is requested through Doc (bare, with the Twin docID, with a Doc docID) and through Twin, every Doc commit through Twin - a commit of another collection is no state of a document of the queried one. " +
 			"non-trivial = >=3 commits and a counter field written; distinct by (kind, configuration, per-commit (document, parent count, fields written) sequence).",
-		Cases:       ttCases,
-		Run:         runTimeTravel,
-		Floors:      []string{"versioned_reads", "counter_history_len_ge4", "branching_histories", "merge_commit_reads", "subscription_results", "subscription_results_evaluated_after_later_commits", "single_head_reads", "null_write_reads", "float_counter_reads", "delete_commit_reads", "mid_history_reads", "filtered_versioned_reads_on_indexed_field", "nontrivial_histories", "branching_histories_with_lazy_subscription",
+		Cases: ttCases,
+		Run:   runTimeTravel,
+		Floors: []string{"versioned_reads", "counter_history_len_ge4", "branching_histories", "merge_commit_reads", "subscription_results", "subscription_results_evaluated_after_later_commits", "single_head_reads", "null_write_reads", "float_counter_reads", "delete_commit_reads", "mid_history_reads", "filtered_versioned_reads_on_indexed_field", "nontrivial_histories", "branching_histories_with_lazy_subscription",
 			"cross_collection_reads", "cross_collection_reads_commit_with_shared_fields_only", "cross_collection_reads_with_docid", "cross_collection_reads_doc_commit_through_twin", "versioned_reads_second_collection"},
 		CaseTimeout: 12 * time.Minute,
 		Assumptions: []string{
